@@ -125,10 +125,22 @@ Proof.
   apply (C03_sized courses parts esize (fixed_shrink courses shrinkf) rooms smin smax k1 st1 k2 st2 V Htc (float_sane_fixed courses esize shrinkf rooms) Hs).
 Qed.
 
-Check C03_fixed. Check C03_engine. Check C03_noTC. Check C03_rooms_noTC. Check C03_sized. Check C03_refuted.
+Theorem C03_final : forall courses parts esize shrinkf rooms smin k1 st1 k2 st2,
+  Valid courses parts -> in_tc courses parts = false -> SizeOK courses parts ->
+  SReach courses parts esize (fixed_shrink courses shrinkf) rooms smin 4294967295%Z k1 st1 -> 0 < k1 -> C02.final st1 ->
+  SReach courses parts esize (fixed_shrink courses shrinkf) rooms smin 4294967295%Z k2 st2 -> 0 < k2 -> C02.final st2 ->
+  (EngP2.best node assignment st1 = None <-> EngP2.best node assignment st2 = None) /\
+  (EngP2.best node assignment st1 <> None -> EngP2.bscore node assignment st1 = EngP2.bscore node assignment st2).
+Proof.
+  intros courses parts esize shrinkf rooms smin k1 st1 k2 st2 V Htc Hs.
+  apply (C03_fixed courses parts esize shrinkf rooms smin 4294967295%Z k1 st1 k2 st2 V Htc Hs). intros a. apply (score_fits_u32 courses parts V a Hs).
+Qed.
+
+Check C03_final. Check C03_fixed. Check C03_engine. Check C03_noTC. Check C03_rooms_noTC. Check C03_sized. Check C03_refuted.
 Print Assumptions C03_engine.
 Print Assumptions C03_noTC.
 Print Assumptions C03_rooms_noTC.
 Print Assumptions C03_sized.
 Print Assumptions C03_fixed.
+Print Assumptions C03_final.
 Print Assumptions C03_refuted.
